@@ -37,7 +37,9 @@ ALPHA = ['a', ' ', "'", '"', '\\', '$', '$(circus.wid)', '((circus.env.foo))', '
          '((', ')']
 BIG = ALPHA + ['$$', '((circus.wid))', '$(circus.env.q)', '((circus.zz_u2))', '$(', '))', 'x=$(circus.wid)y',
                '$(circus.wid', '$(other.wid)', '$HOME', 'é', '\t', '--opt=1', '"c d"', "'e f'", '\\ ', '$(circus.WID)',
-               '((Circus.Env.FOO))', '#', ';']
+               '((Circus.Env.FOO))', '#', ';',
+               # plain shell-style names that merely begin like the old `$WID` placeholder: literal text
+               '$WIDTH', '--home=$WIDGET_HOME', '$WIDe']
 
 
 def variables(wid):
